@@ -241,6 +241,34 @@ class PageRenderer:
             # For now, we assume header text matches the current page columns.
             pass
 
+            # Widths inherited from the body cover all original columns: keep only
+            # those of the columns still displayed (page_by/subline_by removal)
+            if (
+                header_copy.text is not None
+                and header_copy.col_rel_width is not None
+                and isinstance(document.df, pl.DataFrame)
+                and isinstance(page.data, pl.DataFrame)
+            ):
+                original_columns = document.df.columns
+                shown_columns = page.data.columns
+                n_text = (
+                    header_copy.text.shape[1]
+                    if isinstance(header_copy.text, pl.DataFrame)
+                    else len(header_copy.text)
+                )
+                if (
+                    len(shown_columns) < len(original_columns)
+                    and len(header_copy.col_rel_width) == len(original_columns)
+                    and n_text == len(shown_columns)
+                ):
+                    header_copy.col_rel_width = [
+                        width
+                        for column, width in zip(
+                            original_columns, header_copy.col_rel_width, strict=True
+                        )
+                        if column in shown_columns
+                    ]
+
             # Apply top border for first page/first header
             if (
                 page.is_first_page
